@@ -108,6 +108,12 @@ CLAIMED.update({
                 note="Definition shapes and list lengths are enumerated (they are Python class structure); the solver dimension is segment sizes and type widths. The operations of the registered dialects are not covered (no symbolic dimension). Sizes are bounded to [-2,7] (thorough [-3,10])."),
 })
 
+CLAIMED.update({
+    "C09": dict(cat="bounded_symbolic", design="DESIGN.md §4 C09",
+                text="Unit-symbolic (M1): constraint trees from a grammar (Any/Base/Eq/AttrSet leaves, ParamAttrConstraint over a generic pair attribute and IntegerType, VarConstraint shared across positions and depths, AnyOf.get and `|` unions of 2-3 alternatives incl. every pair of pair-parameter alternatives over a 5-letter constraint alphabet, AllOf and `&`) are built by the real constructors and verified on a SYMBOLIC attribute (shape forked over 9 shapes up to depth 2; integer payloads and type widths are solver variables). z3 decides acceptance <=> a declarative structural reference (union = some alternative, intersection = all, one consistent variable assignment) for all payloads; on accepted paths can_infer => infer()'s result verifies. Hints (classes, unions, generic attribute classes, unions of generics) via irdl_to_attr_constraint are compared with isa and with the hint's structure on the same symbolic attributes.",
+                note="Tree shapes and attribute shapes are enumerated; payloads are symbolic. Where verification hashes the attribute (AttrSetConstraint membership) the engine concretises by forking, so payload ranges are narrowed there ([-1,3], widths [7,17]). Unions the constructor refuses (PyRDLError) are skipped, as the property allows."),
+})
+
 NOT_APPLICABLE = {
     "C05": "custom assembly formats: the quantifier is over ~80 dialects' op definitions/format programs; no data dimension for a solver beyond what C04/C06 cover for leaves (DESIGN §5)",
     "C17": "pass x corpus-module cross product: deciding it means running each pair concretely; no symbolic dimension (DESIGN §5)",
